@@ -170,7 +170,7 @@ import (
 func Abbreviate(s string, n int) string {
 	const spaces = " \n\r\t\f" // https://infra.spec.whatwg.org/#ascii-whitespace
 	s = strings.TrimRight(s, spaces)
-	if len(s) <= n {
+	if len(s) <= n || utf8.RuneCountInString(s) <= n {
 		return s
 	}
 	if n < 3 {
@@ -228,12 +228,13 @@ func Capitalize(s string) string {
 		if unicode.IsUpper(r) {
 			return s
 		}
+		_, size := utf8.DecodeRuneInString(s[i:])
 		r = unicode.ToUpper(r)
 		b := strings.Builder{}
 		b.Grow(len(s))
 		b.WriteString(s[:i])
 		b.WriteRune(r)
-		b.WriteString(s[i+utf8.RuneLen(r):])
+		b.WriteString(s[i+size:])
 		return b.String()
 	}
 	return s
